@@ -171,7 +171,7 @@ TEMPLATES = [
     ("true-or", "true || ({CALL} == 1)", lambda v: ("bool", True), "atmost"),
     ("false-and", "false && ({CALL} == 1)", lambda v: ("bool", False), "atmost"),
     ("and-false", "({CALL} == 1) && false", lambda v: ("bool", False), "once"),
-    ("cond-unselected", "true ? 5 : {CALL}", lambda v: ("int", 5), "atmost"),
+    ("cond-unselected", "true ? 5 : {CALL}", lambda v: ("int", 5), "never"),  # the branch ?: does not select is not a call site reached
     ("cond-selected", "false ? 5 : {CALL}", lambda v: v, "once"),
     ("cond-condition", "({CALL} == -1) ? 1 : 2", lambda v: "ERR" if v == "ERR" else ("int", 2), "once"),
     ("list-element", "[{CALL}, 1]", lambda v: "ERR" if v == "ERR" else ("list", (v, ("int", 1))), "once"),
@@ -255,6 +255,8 @@ def check_case(run: common.Run, tlabel: str, slabel: str, kind: str, style: str,
             continue
         if t[3] == "once" and len(hf_calls) != 1:
             report(f"{tag}-call-count-{len(hf_calls)}-expected-1", case, f"{src}: host function called {len(hf_calls)} times")
+        elif t[3] == "never" and len(hf_calls) != 0:
+            report(f"{tag}-unselected-branch-of-conditional-called-{len(hf_calls)}-times", case, f"{src}: host function called {len(hf_calls)} times in the branch ?: did not select")
         elif t[3] == "atmost" and len(hf_calls) > 1:
             report(f"{tag}-call-count-{len(hf_calls)}-expected-at-most-1", case, f"{src}: host function called {len(hf_calls)} times")
         for c in hf_calls:
